@@ -158,7 +158,7 @@ impl Method for PhoneticMethod {
     fn update_engine(&mut self, config: &Config) {
         // Update the auto correct entries if only the file was modified in the meantime.
         if let Some((modified, autocorrect)) = load_user_autocorrect(config, self.modified) {
-            self.suggestion.user_autocorrect = autocorrect;
+            self.suggestion.update_user_autocorrect(autocorrect);
             self.modified = modified;
         }
     }
